@@ -331,15 +331,35 @@ def random_tk(rnd):
             cmds.append({"op": "Measure", "ph": 0, "qs": [rnd.randrange(nq)], "bs": [rnd.randrange(nb)]})
         elif r < 0.6 or nq < 2:
             op = rnd.choice(OPS1)
-            cmds.append({"op": op, "ph": rnd.choice([1, 3, 6]) if op in ("Rx", "Rz") else 0, "qs": [rnd.randrange(nq)], "bs": []})
+            cmds.append({"op": op, "ph": rnd.choice([1, 3, 6, 11, -2]) if op in ("Rx", "Rz") else 0, "qs": [rnd.randrange(nq)], "bs": []})
         else:
             op = rnd.choice(OPS2)
             a, b = rnd.sample(range(nq), 2)
-            cmds.append({"op": op, "ph": rnd.choice([1, 5]) if op == "CRz" else 0, "qs": [a, b], "bs": []})
+            cmds.append({"op": op, "ph": rnd.choice([1, 5, 9, 13, -3]) if op == "CRz" else 0, "qs": [a, b], "bs": []})
     postsel = []        # plain tket circuits: post-selection is DisCoPy's own extension
     post_ty = ["b"] * (nb - len(postsel))
     return {"nq": nq, "nb": nb, "cmds": cmds, "postsel": postsel, "sc": {"re": 1, "im": 0, "s": 0},
             "post": {"ty": post_ty, "layers": []}}
+
+
+def rotation_import_family():
+    """tket circuits whose rotation angles lie outside the first turn (tket reduces angles modulo 4 half-turns; for a
+    controlled rotation the second turn is not a global phase), control and target in superposition, read out in the X basis"""
+    out = []
+    for ph in (1, 5, 9, 13, -3):
+        for op, qs in (("CRz", [0, 1]), ("CRz", [1, 0])):
+            cmds = [{"op": "H", "ph": 0, "qs": [0], "bs": []}, {"op": "H", "ph": 0, "qs": [1], "bs": []},
+                    {"op": op, "ph": ph, "qs": qs, "bs": []},
+                    {"op": "H", "ph": 0, "qs": [0], "bs": []}, {"op": "H", "ph": 0, "qs": [1], "bs": []},
+                    {"op": "Measure", "ph": 0, "qs": [0], "bs": [0]}, {"op": "Measure", "ph": 0, "qs": [1], "bs": [1]}]
+            out.append({"nq": 2, "nb": 2, "cmds": cmds, "postsel": [], "sc": {"re": 1, "im": 0, "s": 0},
+                        "post": {"ty": ["b", "b"], "layers": []}})
+        for op in ("Rx", "Rz"):
+            cmds = [{"op": "H", "ph": 0, "qs": [0], "bs": []}, {"op": op, "ph": ph, "qs": [0], "bs": []},
+                    {"op": "H", "ph": 0, "qs": [0], "bs": []}, {"op": "Measure", "ph": 0, "qs": [0], "bs": [0]}]
+            out.append({"nq": 1, "nb": 1, "cmds": cmds, "postsel": [], "sc": {"re": 1, "im": 0, "s": 0},
+                        "post": {"ty": ["b"], "layers": []}})
+    return out
 
 
 def features(mc):
@@ -422,6 +442,7 @@ def run(tier, seed, t0):
             nested = pool.map(work_one, sample, chunksize=4)
         recs = [r for group in nested for r in group]
         recs += [observe_from(random_tk(rnd)) for _ in range(c["tk_random"])]
+        recs += [observe_from(t) for t in rotation_import_family()]
         judged = [r for r in recs if not r["refused"]]
         rows = [{"kind": r["kind"], "mc": r["mc"], "tk": r["tk"], "exc": r["exc"]} for r in judged]
         tf = os.path.join(work, "trace.ndjson")
